@@ -65,15 +65,40 @@ Theorem C20_close_reports_exactly_its_faults : forall parse S c l w,
 Proof. intros. apply finish_close_error_iff. Qed.
 Print Assumptions C20_close_reports_exactly_its_faults.
 
-(* keep-files off (or RelevantOnly without a relevant rule): whatever failed before or during Close
-   - except a Remove itself - and wherever the transaction was abandoned, the files after Close are
-   exactly the files that existed before the transaction *)
+(* keep-files off (or RelevantOnly without a relevant rule), EVERY schedule, every abandonment point:
+   the pre-existing files are untouched, and every file of the transaction that is still there after
+   Close is a file whose OWN Remove is among the failures Close recorded (an upload: the Remove at its
+   position in FILES_TMPNAMES; the spill file: its Remove) - i.e. every file whose own Remove does not
+   fail is gone, whatever else failed: Close tries every entry and collects every error. *)
 Theorem C20_no_temp_left : forall parse S c l fs,
+  fs_wf fs ->
+  let w := run parse cur S c l (init_world fs) in
+  keep_files c (w_tx w) = false ->
+  let w' := snd (finish parse cur S c l (init_world fs)) in
+  filter (low (fs_next fs)) (fs_files (w_fs w')) = fs_files fs /\
+  forall f, In f (fs_files (w_fs w')) -> fs_next fs <= f_id f ->
+    own_remove_failed (t_tmpnames (w_tx w)) (bb_writer (t_buf (w_tx w))) (w_faults w') (f_id f).
+Proof. intros parse S c l fs W. apply no_temp_left_per_file; auto. Qed.
+Print Assumptions C20_no_temp_left.
+
+(* consequence: when the schedule never fails a Remove, the files after Close are exactly the files
+   that existed before the transaction *)
+Theorem C20_no_temp_left_when_no_remove_fails : forall parse S c l fs,
   fs_wf fs -> no_remove_fault S ->
   keep_files c (w_tx (run parse cur S c l (init_world fs))) = false ->
   fs_files (w_fs (snd (finish parse cur S c l (init_world fs)))) = fs_files fs.
 Proof. intros. apply no_temp_left; auto. Qed.
-Print Assumptions C20_no_temp_left.
+Print Assumptions C20_no_temp_left_when_no_remove_fails.
+
+(* refuted (seeded defect C20-d): a removal loop that returns at the first failure leaves a file
+   behind whose own Remove never failed - unlike remove_from *)
+Theorem C20_no_temp_left_refuted_stop_at_first_failure :
+  exists S ids w, let w' := snd (remove_from_stop S 0 ids w) in
+    exists f, In f (fs_files (w_fs w')) /\
+      ~ own_remove_failed ids None (w_faults w') (f_id f) /\
+      ~ In f (fs_files (w_fs (snd (remove_from S 0 ids w)))).
+Proof. exact stop_at_first_failure_leaves_files. Qed.
+Print Assumptions C20_no_temp_left_refuted_stop_at_first_failure.
 
 (* the guard is satisfiable by schedules that do fail things: the two F29 schedules *)
 Theorem C20_no_temp_left_guard_nontrivial :
